@@ -187,6 +187,21 @@ CORPUS = {
         join(1, authid="a"), sub(1, 1, "wamp.registration.", "prefix"),
         msg(1, "reg", req=2, uri="p.q"),
         msg(1, "bye")]),
+    # adf4e26  disclose_caller is per callee of a shared registration
+    ("C12", "shared-registration-disclose-not-inherited"): dict(realms=[{}], ops=OBS + [
+        join(1, authid="a"), join(2, local=False), join(3, local=False),
+        msg(1, "reg", req=1, uri="p.q", opts=D(invoke=S("roundrobin"), disclose_caller=True)),
+        msg(2, "reg", req=1, uri="p.q", opts=D(invoke=S("roundrobin"), disclose_caller=True)),
+        msg(2, "reg", req=2, uri="p.q", opts=D(invoke=S("roundrobin"))),
+        call(3, 1, "p.q"), call(3, 2, "p.q")]),
+    ("C12", "shared-registration-joiner-asks-disclose"): dict(realms=[{"disclose": True}], ops=OBS + [
+        join(1, local=False), join(2, local=False), join(3, local=False),
+        msg(1, "reg", req=1, uri="p.q", opts=D(invoke=S("roundrobin"))),
+        msg(2, "reg", req=1, uri="p.q", opts=D(invoke=S("roundrobin"), disclose_caller=True)),
+        call(3, 1, "p.q"), call(3, 2, "p.q"),
+        msg(2, "unreg", req=2, ref={"kind": "reg", "sess": 2, "req": 1}),
+        msg(2, "reg", req=3, uri="p.q", opts=D(invoke=S("roundrobin"))),
+        call(3, 3, "p.q"), call(3, 4, "p.q")]),
     ("C18", "kill-all-on-leave"): dict(realms=[{"kill": True}], ops=OBS + [
         join(1, authid="a"), join(2, authid="b"), sub(0, 2, "wamp.session.on_leave"),
         call(0, 3, "wamp.session.kill_all", kwargs=D(reason=S("app.done"), message=S("bye")))]),
